@@ -415,6 +415,18 @@ std::vector<int> large_lengths() {
         4087 /*61*67*/, 10403 /*101*103*/, 36863 /*191*193*/, 121103 /*347*349*/, 5 * 8191, 3 * 43691,
     };
 }
+// thorough only: more listed lengths (n*n overflows int above 46340; neighbours of 65536; large prime factors; round composites)
+std::vector<int> more_large_lengths() {
+    return {
+        46337, 46340, 46341, 46348, 46349 /*prime*/, 46351 /*prime*/, 92698 /*2*46349*/, 92702 /*2*46351*/,
+        65519 /*prime*/, 65520, 65535, 65539 /*prime*/, 65543 /*prime*/, 65542 /*2*32771*/, 131038 /*2*65519*/, 131074 - 4 /*131070*/, 131056,
+        100003 /*prime*/, 100042 /*2*50021*/, 130771 /*251*521*/, 9 * 8191, 11 * 11 * 521, 521 * 16, 521 * 3 * 64, 1031 * 127,
+        12288, 10240, 15000, 20000, 24576, 30000, 40000, 49152, 60000, 73728, 98304, 114688, 128000, 98280, 69300, 9000, 9216, 11025 /*105^2*/,
+        14641 /*11^4*/, 28561 /*13^4*/, 83521 /*17^4*/, 24389 /*29^3*/, 68921 /*41^3*/, 79507 /*43^3*/, 3 * 3 * 3 * 4096, 2 * 59049,
+    };
+}
+// quick: listed lengths that get the complete entry-point set (the others run in light mode)
+bool quick_full(int n) { return n == 4099 || n == 8192 || n == 10000 || n == 65537 || n == 65538 || n == 100000 || n == 131072; }
 
 }   // namespace
 
@@ -422,9 +434,9 @@ int main(int argc, char** argv) {
     Ctx ctx;
     ctx.parse(argc, argv, "C01");
     const bool T = ctx.thorough();
-    const int N = T ? 4096 : 512;          // every length 1..N
+    const int N = T ? 12288 : 512;         // every length 1..N
     const int NIMP = T ? 256 : 64;         // all impulses / all tones up to this length
-    const int NDENSE = T ? 1024 : 256;     // O(n^2) oracle up to this length
+    const int NDENSE = T ? 2048 : 256;     // O(n^2) oracle up to this length
     const int NRES_ALL = 64;               // every n' in 1..2n up to this length
     const int NCZT = T ? 48 : 16;
 
@@ -432,16 +444,22 @@ int main(int argc, char** argv) {
     for (int n = 1; n <= N; ++n) lens.push_back(n);
     for (int n : large_lengths())
         if (n > N) lens.push_back(n);
+    if (T)
+        for (int n : more_large_lengths())
+            if (n > N && std::find(lens.begin(), lens.end(), n) == lens.end()) lens.push_back(n);
 
     Len L;
     Run r(ctx);
     std::vector<cld> x, R;
 
     for (int n : lens) {
-        for (int d = 0; d < 2; ++d) {
+        // the 10 blocks of one length are enumerated in an order rotated with n so that no shard (case ordinal mod 16)
+        // always receives the same kind of block
+        for (int t = 0; t < 10; ++t) {
+            const int u = (t + n / 2) % 10, d = u / 5, chk = u % 5;
             const bool cplx = d == 0;
             const char* dom = cplx ? "complex" : "real";
-            const bool light = !T && n > N;
+            const bool light = !T && n > N && !quick_full(n);
             auto begin_case = [&]() {
                 L.init(n);
                 r.n = n;
@@ -462,7 +480,7 @@ int main(int argc, char** argv) {
             const std::vector<int> idx = index_set(n, NIMP, light);
 
             // ---- impulses: columns of the transform matrix
-            if (ctx.take("fft.impulse", P().kv("n", n).kv("input", dom))) {
+            if (chk == 0 && ctx.take("fft.impulse", P().kv("n", n).kv("input", dom))) {
                 begin_case();
                 guarded(cplx ? "FftPlan" : "FftPlanR", [&] {
                     Letters lt(L, cplx);
@@ -477,7 +495,7 @@ int main(int argc, char** argv) {
                 });
             }
             // ---- bin-centred tones
-            if (ctx.take("fft.tone", P().kv("n", n).kv("input", dom))) {
+            if (chk == 1 && ctx.take("fft.tone", P().kv("n", n).kv("input", dom))) {
                 begin_case();
                 guarded(cplx ? "FftPlan" : "FftPlanR", [&] {
                     Letters lt(L, cplx);
@@ -491,7 +509,7 @@ int main(int argc, char** argv) {
                 });
             }
             // ---- constant, alternating sign, geometric letters, 1e+-150 letter
-            if (ctx.take("fft.closedform", P().kv("n", n).kv("input", dom))) {
+            if (chk == 2 && ctx.take("fft.closedform", P().kv("n", n).kv("input", dom))) {
                 begin_case();
                 guarded(cplx ? "FftPlan" : "FftPlanR", [&] {
                     Letters lt(L, cplx);
@@ -510,7 +528,7 @@ int main(int argc, char** argv) {
                 });
             }
             // ---- dense letter against the O(n^2) long-double DFT
-            if (n <= NDENSE && ctx.take("fft.dense", P().kv("n", n).kv("input", dom))) {
+            if (chk == 3 && n <= NDENSE && ctx.take("fft.dense", P().kv("n", n).kv("input", dom))) {
                 begin_case();
                 guarded(cplx ? "FftPlan" : "FftPlanR", [&] {
                     Letters lt(L, cplx);
@@ -525,7 +543,7 @@ int main(int argc, char** argv) {
                 });
             }
             // ---- fft(x, n') / rfft(x, n'): zero-pad or truncate
-            if (ctx.take("fft.resize", P().kv("n", n).kv("input", dom))) {
+            if (chk == 4 && ctx.take("fft.resize", P().kv("n", n).kv("input", dom))) {
                 begin_case();
                 guarded("fft(x,n')", [&] {
                     std::vector<int> targets;
@@ -534,6 +552,9 @@ int main(int argc, char** argv) {
                     } else {
                         targets = {1, n - 1, n, n + 1, 2 * n};
                         if (light) targets = {n - 1, n + 1};
+                        // short input padded to big lengths, long input truncated to big / small lengths
+                        if (n == 100 || n == 500) targets.insert(targets.end(), {4099, 65537, 100000});
+                        if (n == 131072 || n == 100000) targets.insert(targets.end(), {4097, 70001});
                     }
                     const ld rho = n > 4 ? 1 - (ld)4 / n : (ld)0.5;
                     const cld amp = cplx ? CAMP : cld(1, 0);
@@ -674,6 +695,100 @@ int main(int argc, char** argv) {
                     } catch (const std::exception& e) {
                         ctx.fail("czt", std::string("exception: ") + e.what(), "a transform", P().kv("kind", "exception"));
                     }
+                }
+            }
+        }
+    }
+    // ---------------------------------------------------------------- czt / CztPlan with big n or m (sparse grid)
+    // Same oracle and tolerance as czt.def; the double sum is evaluated with the long-double recurrence w^(jk) = (w^k)^j
+    // (error ~ j*6e-20, far below the tolerance) so that n*m up to 1e8 stays affordable.  |a|^n must stay representable,
+    // hence |a| is 1 or 1 + 32/n here.
+    {
+        struct NM {
+            int n, m;
+        };
+        std::vector<NM> nm = {{5000, 7}, {7, 5000}, {4097, 4097}, {70000, 3}, {3, 70000}};
+        if (T) {
+            for (int n : {64, 100, 127, 128, 255, 256, 257, 500, 1000, 1024, 2047, 4096, 5000})
+                for (int m : {1, 17, n - 1, n, n + 1, 2 * n}) nm.push_back({n, m});
+            for (NM e : {NM{8192, 8192}, NM{10000, 9999}, NM{131072, 5}, NM{5, 131072}, NM{65537, 64}, NM{64, 65537}, NM{46341, 3}}) nm.push_back(e);
+        }
+        const int wsb[3][2] = {{1, 0}, {7, 100}, {1, 1000}};   // q == 0: p/q = 1/m
+        for (const NM& e : nm) {
+            const int n = e.n, m = e.m;
+            for (int iw = 0; iw < 3; ++iw) {
+                const int p = wsb[iw][0], q = wsb[iw][1] ? wsb[iw][1] : m;
+                if (!ctx.take("czt.big", P().kv("n", n).kv("m", m).kv("p", p).kv("q", q))) continue;
+                ctx.nontrivial();
+                r.untick();
+                try {
+                    const cld wl = twid(p, q);
+                    const cmplx_t w((double)wl.real(), (double)wl.imag());
+                    const ld argw = atan2l((ld)w.im, (ld)w.re);
+                    int n2 = 1;
+                    while (n2 < m + n - 1) n2 *= 2;
+                    const ld Lc = (ld)n2 + (ld)std::max(m, n) * std::max(m, n);
+                    ctx.note(fmt("czt.big conv size %d", n2));
+                    const double g = 1.0 + 32.0 / n;
+                    const cmplx_t as[5] = {cmplx_t(1, 0), cmplx_t(-1, 0), cmplx_t(0.6, 0.8), cmplx_t(-g, 0), cmplx_t(0, 1.0 / g)};
+                    for (int ia = 0; ia < 5; ++ia) {
+                        const cmplx_t a = as[ia];
+                        const ld amag = hypotl((ld)a.re, (ld)a.im), aarg = atan2l((ld)a.im, (ld)a.re);
+                        std::vector<cld> ainv((size_t)n);
+                        for (int j = 0; j < n; ++j) ainv[(size_t)j] = powl(amag, -(ld)j) * cis(fmodl(-aarg * (ld)j, 2 * PI_L));
+                        CztPlan plan(n, m, w, a);
+                        for (int l = 0; l < 2; ++l) {
+                            std::vector<cld> y((size_t)n, cld(0));   // x_j * a^-j
+                            std::vector<cld> xs((size_t)n, cld(0));
+                            if (l == 0)
+                                for (int j = 0; j < n; ++j) xs[(size_t)j] = cld(lcg_val(3, (uint64_t)j), lcg_val(4, (uint64_t)j));
+                            else
+                                xs[(size_t)(n - 1)] = CAMP;
+                            ld s1 = 0;
+                            for (int j = 0; j < n; ++j) {
+                                y[(size_t)j] = xs[(size_t)j] * ainv[(size_t)j];
+                                s1 += std::abs(y[(size_t)j]);
+                            }
+                            std::vector<cld> Rm((size_t)m);
+                            for (int k = 0; k < m; ++k) {
+                                const cld z = cis(fmodl(argw * (ld)k, 2 * PI_L));
+                                cld acc = 0, pw = 1;
+                                if (l == 1) {
+                                    acc = y[(size_t)(n - 1)] * cis(fmodl(argw * (ld)k * (ld)(n - 1), 2 * PI_L));
+                                } else {
+                                    for (int j = 0; j < n; ++j) {
+                                        acc += y[(size_t)j] * pw;
+                                        pw *= z;
+                                    }
+                                }
+                                Rm[(size_t)k] = acc;
+                            }
+                            const arr_cmplx xa = to_arr(xs);
+                            const ld scale = sqrtl((ld)m) * s1;
+                            auto one = [&](const char* site, const arr_cmplx& X) {
+                                r.tick();
+                                if (X.size() != m) {
+                                    ctx.fail(site, fmt("result has %d elements", X.size()), fmt("%d elements", m), P().kv("kind", "size"));
+                                    return;
+                                }
+                                ld sq = 0;
+                                for (int k = 0; k < m; ++k) sq += std::norm(cld(X[k].re, X[k].im) - Rm[(size_t)k]);
+                                const double err = (sq == sq) ? (double)(sqrtl(sq) / (Lc * (ld)EPS * scale)) : INFINITY;
+                                if (std::isfinite(err)) ctx.worst("czt.big: l2 err/((n2+max(m,n)^2) eps sqrt(m) sum|x a^-j|)", err);
+                                const ld nR = l2(Rm);
+                                if (std::isfinite(err) && nR > 0.1L * scale)
+                                    ctx.worst("czt.big (informative): rel l2 err/eps", (double)(sqrtl(sq) / (nR * (ld)EPS)));
+                                if (!(err <= TOL))
+                                    ctx.fail(site, fmt("l2 err = %.3g * (n2+max(m,n)^2)*eps*sqrt(m)*sum|x_j a^-j|, X[0]=%.17g%+.17gi", err, X[0].re, X[0].im),
+                                             fmt("<= %.0f; X[0]=%.17Lg%+.17Lgi", TOL, Rm[0].real(), Rm[0].imag()),
+                                             P().kv("letter", l == 0 ? "dense" : "impulse@n-1").kv("a_re", a.re).kv("a_im", a.im).kv("kind", "value"));
+                            };
+                            one("CztPlan::solve", plan.solve(xa));
+                            if (l == 0 && ia < 2) one("czt", czt(xa, m, w, a));
+                        }
+                    }
+                } catch (const std::exception& ex) {
+                    ctx.fail("czt", std::string("exception: ") + ex.what(), "a transform", P().kv("kind", "exception"));
                 }
             }
         }
